@@ -40,6 +40,11 @@ pub struct HP {
     /// timer is delivered, the member is forgotten), so that the 8-bit timer token is about to wrap
     #[serde(default)]
     pub warmup_flaps: u32,
+    /// max_packet_size lies between the smallest two-identity header and the largest three-identity header of the
+    /// identity domain: some sends fail with an encode error half-way (a legal configuration, yet outside the
+    /// premise of the accounting properties: only C07 and C06 verdicts are recorded)
+    #[serde(default)]
+    pub tight_headers: bool,
     /// the warm-up epochs are identity changes (reset()) instead of idle flaps (become_disconnected())
     #[serde(default)]
     pub warmup_by_renewal: bool,
@@ -203,10 +208,29 @@ pub fn gen_hp(seed: u64, profile: &str, tier: Tier) -> HP {
     if profile == "C08" {
         setup.acc_twin = s.chance(1, 2);
     }
-    let mut hp = HP { profile: profile.to_string(), setup, addrs: s.range(3, 6) as u16, steps, timer_mode, weights, wild_config: wild, warmup_flaps: 0, warmup_by_renewal: false, warmup_probe_rounds: 0 };
+    let mut hp = HP { profile: profile.to_string(), setup, addrs: s.range(3, 6) as u16, steps, timer_mode, weights, wild_config: wild, warmup_flaps: 0, warmup_by_renewal: false, warmup_probe_rounds: 0, tight_headers: false };
     // injected fault of the no-panic check only: the instance's codec fails at random calls
     if wild && hp.setup.codec.is_wire() && !hp.setup.policy.var_ids && s.chance(1, 3) {
         hp.setup.codec = CodecKind::WireFlaky;
+    }
+    // C07 / C20: one run in five with packets so small that the longer headers do not fit
+    if (profile == "C07" || profile == "C20") && seed % 5 == 0 {
+        crate::id::set_policy(hp.setup.policy);
+        let mut s3 = Stream::new(seed, "hist-tight");
+        let own = hp.setup.id;
+        let (mut lo, mut hi) = (usize::MAX, 0usize);
+        for a in 2..=hp.addrs {
+            for g in OWN_GEN - 1..OWN_GEN + 3 {
+                let peer = SimId::new(a, g);
+                let two = crate::codec::enc_header(hp.setup.codec, &Header { src: own, src_incarnation: 0, dst: peer, message: Message::Ack(0) }).len();
+                let other = SimId::new(2 + (a - 1) % (hp.addrs - 1), OWN_GEN + (g % 3));
+                let three = crate::codec::enc_header(hp.setup.codec, &Header { src: own, src_incarnation: u16::MAX, dst: peer, message: Message::PingReq { target: other, probe_number: 255 } }).len();
+                lo = lo.min(two);
+                hi = hi.max(three);
+            }
+        }
+        hp.tight_headers = true;
+        hp.setup.cfg.max_packet_size = NonZeroUsize::new(s3.range(lo as u64, hi as u64 + 6) as usize).unwrap();
     }
     // one run in ten (C13, C11) or forty starts with the timer token about to wrap around
     let odds = if profile == "C13" || profile == "C11" { 10 } else { 40 };
@@ -457,7 +481,13 @@ impl<'a> Gen<'a> {
             3 => c.remove_down_after = Duration::from_millis(self.s.range(0, 5000)),
             4 => {
                 let fresh = gen_config(&mut self.s, min_mps, self.hp.wild_config);
-                c.max_packet_size = fresh.max_packet_size;
+                if self.hp.tight_headers {
+                    // stay around the header sizes
+                    let cur = c.max_packet_size.get();
+                    c.max_packet_size = NonZeroUsize::new((cur + self.s.below(9) as usize).saturating_sub(4).max(1)).unwrap();
+                } else {
+                    c.max_packet_size = fresh.max_packet_size;
+                }
             }
             5 => c.notify_down_members = !c.notify_down_members,
             6 => c.periodic_announce = None,
@@ -753,6 +783,9 @@ pub fn run_hist(hp: &HP, seed: u64, steps: Option<&[Step]>) -> HistRun {
         // counts): only the no-panic oracle is meaningful, the other monitors' verdicts are not recorded
         out.violations.retain(|v| v.property == "C06");
     }
+    if hp.tight_headers {
+        out.violations.retain(|v| matches!(v.property, "C07" | "C06"));
+    }
     if hp.setup.policy.renew == RenewMode::Tie {
         // identities without a total conflict order are outside the premise of the table properties (C01, C09):
         // under this policy only the reaction to one's own death (C08, C10) and the no-panic oracle are recorded
@@ -807,6 +840,15 @@ impl Scenario for Hist {
         };
         let r = run_hist(&hp, case.seed, steps.as_deref());
         let mut out = r.out;
+        if self.focus == "C20" {
+            // bundled codecs inside a running instance: "fail cleanly ... Foca's datagrams stay well-formed", no panic
+            for v in out.violations.iter_mut() {
+                if v.property == "C07" || (v.property == "C06" && v.tag.contains("panic")) {
+                    v.tag = format!("C20/with-bundled-codec:{}", v.tag);
+                    v.property = "C20";
+                }
+            }
+        }
         out.nontrivial = nontrivial_for(self.focus, &out);
         if steps.is_none() && !out.violations.is_empty() {
             let mut c = case.clone();
